@@ -479,6 +479,11 @@ pub mod polonius {
 #[doc(hidden)]
 mod default_impl_delegator;
 
+#[cfg(unimock_verif)]
+#[doc(hidden)]
+#[allow(missing_docs)]
+pub mod verif;
+
 mod assemble;
 mod call_pattern;
 mod clause;
